@@ -913,7 +913,7 @@ func VerifyFunc(p *Program, fn *ssa.Function, prop string) (res *FuncResult) {
 	if e.topFrame != nil {
 		for i, r := range e.topFrame.rets {
 			res.Covers = append(res.Covers, &Obligation{ID: fmt.Sprintf("%s/vacuity:return-reachable#%d", name, i+1), Kind: "vacuity", Func: name,
-				Guard: r.st.Reach, Cond: c.False(), Text: "return block reachable under the preconditions (expected sat)"})
+				Guard: r.st.Reach, Cond: c.False(), Text: "return at " + r.pos + " reachable under the preconditions (expected sat)"})
 		}
 	}
 	// ensures
